@@ -571,11 +571,41 @@ static void probe_reneg_stale_echo()
 		}
 	}
 }
+// Probe: "the client reports the extension as negotiated exactly when the server echoed it" - also on the connection
+// that follows one where it was negotiated: after the reset, and when the new handshake dies before any ServerHello.
+static void probe_stale_negotiated_flag()
+{
+	Profile cp, sp;
+	cp.suites = { 0x009C }; sp.suites = { 0x009C };
+	cp.layout = L_SPLIT; cp.ilen = 512 + 325; cp.olen = 512 + 85;
+	sp.layout = L_SPLIT;
+	BearClient c(cp);
+	{
+		BearServer s(sp);
+		VF_CHECK(c.reset() && s.reset(), "probe: reset");
+		Session S(&c, &s);
+		S.run(100000);
+		VF_CHECK(S.established && br_ssl_engine_get_mfln_negotiated(c.eng) == 1, "probe: first connection did not negotiate the extension");
+	}
+	VF_CHECK(c.reset(), "probe: second reset");
+	int after_reset = br_ssl_engine_get_mfln_negotiated(c.eng);
+	// the peer answers the ClientHello with a fatal alert: no ServerHello at all
+	const uint8_t *p;
+	size_t n = c.wire_out_peek(&p);
+	c.wire_out_ack(n);
+	static const uint8_t AL[] = { 21, 3, 3, 0, 2, 2, 40 };
+	size_t off = 0;
+	while (off < sizeof AL && !c.closed()) { size_t room = c.wire_in_room(); if (!room) break; size_t k = std::min(room, sizeof AL - off); c.wire_in(AL + off, k); off += k; }
+	VF_CHECK(c.closed() && c.error() == BR_ERR_RECV_FATAL_ALERT + 40, "probe: alert not taken (error %d)", c.error());
+	int after_fail = br_ssl_engine_get_mfln_negotiated(c.eng);
+	VF_CHECK(after_reset == 0 && after_fail == 0, "a client that negotiated max_fragment_length on its previous connection reports get_mfln_negotiated()=%d after the reset and %d after the new handshake "
+		"failed before any ServerHello: nothing was echoed on this connection", after_reset, after_fail);
+}
 static bool probes_done = false;
 
 void target_run(Tape &t)
 {
-	if (!probes_done) { probes_done = true; probe_reneg_stale_echo(); }
+	if (!probes_done) { probes_done = true; probe_reneg_stale_echo(); probe_stale_negotiated_flag(); }
 	unsigned k = t.u8() % 8;
 	if (k <= 2) kind_session(t);
 	else if (k == 3) kind_openssl(t);
